@@ -11,14 +11,14 @@ def gen_ops(ctx):
     # corpus first: the kernel-checked witness, on the real code, through every entry point
     ops += ["line " + WITNESS, "linex " + WITNESS, "aline g8 " + WITNESS, "line 0 0 0 0", "line 0 0 3 1"]
     # --- line: every direction vector of a window, all octants, axis-parallel and diagonal included
-    N = 64 if th else 30
+    N = 100 if th else 60
     for dx in range(-N, N + 1):
         for dy in range(-N, N + 1):
             ops.append("line 0 0 %d %d" % (dx, dy))
     # translated starts (random, incl. negative coordinates) and long lines
     for _ in range(3000 if th else 400):
         sx, sy = r.range(-1000, 1000), r.range(-1000, 1000)
-        ops.append("line %d %d %d %d" % (sx, sy, sx + r.range(-N, N), sy + r.range(-N, N)))
+        ops.append("line %d %d %d %d" % (sx, sy, sx + r.range(-40, 40), sy + r.range(-40, 40)))
     for _ in range(1500 if th else 150):
         sx, sy = r.range(-5000, 5000), r.range(-5000, 5000)
         L = r.choice([100, 500, 3000])
@@ -95,6 +95,8 @@ ASSUME = [
 def run(ctx, ops=None):
     vlib.regen(ctx, C20_syms.NAMESPACE, C20_syms.SYMS, GEN_HEADER)
     obligations, discharged = vlib.standard_proof_steps(ctx)
+    if any(b[0] == "theorem" and not b[1].startswith("C20_") for b in ctx.broken):
+        discharged = 0      # a helper lemma broke: the module did not compile, nothing after it was checked
     binary, err = vlib.compile_harness(ctx, "harness/C20/main.cpp")
     samples, distinct, extra = [], 0, {}
     if binary is None:
@@ -109,7 +111,7 @@ def run(ctx, ops=None):
         extra["verdicts_by_kind"] = dict(sorted(byv.items()))
         extra["ops_by_kind"] = dict(collections.Counter(o.split()[0] for o in ops))
         extra["points_judged"] = sum(max(0, (len(r.split()) - 2) // 2) for o, r in zip(ops, impl) if o.split()[0] in ("line", "linex", "mcirc", "tcirc", "ell"))
-        window = [(o, v) for o, v in zip(ops, verdicts) if o.startswith("line 0 0 ")]
+        window = list({o: v for o, v in zip(ops, verdicts) if o.startswith("line 0 0 ")}.items())
         extra["line_window_vectors"] = len(window)
         extra["line_window_leaving_bbox"] = sum(1 for o, v in window if v == "fail bbox")
         extra["line_window_beyond_one_pixel_only"] = sum(1 for o, v in window if v == "fail within-one-pixel")
@@ -129,7 +131,7 @@ def run(ctx, ops=None):
         for i in (0, 1, 2, len(ops) // 4, len(ops) // 2, 3 * len(ops) // 4, len(ops) - 1):
             if i < len(ops): samples.append({"op": ops[i][:120], "impl": impl[i][:200], "model": model[i][:200], "judge": verdicts[i]})
     return vlib.finish(ctx, "proof", obligations, discharged,
-        rule="op lines: every direction vector of a (2N+1)^2 window (N=30 quick / 64 thorough) from the origin + random translated and long lines; "
+        rule="op lines: every direction vector of a (2N+1)^2 window (N=60 quick / 100 thorough) from the origin + random translated and long lines; "
              "exact-arithmetic line model on every vector with power-of-two major extent; apply_rasterizer(line) on canary-padded bbox views over 8 view types; "
              "midpoint / trigonometric circle for every radius 0..R; apply_rasterizer(circle) on canary-padded bbox views; every ellipse semi-axes pair of a square "
              "+ random large ones; apply_rasterizer(ellipse) on whole and clipping views. non-trivial = start != end / radius >= 1 / both semi-axes >= 1 (distinct op lines counted)",
